@@ -98,6 +98,13 @@ theorem wsymm_sound : ∀ k ∈ Kind.all, ∀ name ∈ k.names, ∀ fn,
     generated.wsymm.get name = some fn → fn = ⟨k.sname, k.distinct⟩ := by
   decide
 
+-- OBSERVATION O1 (not a theorem, and not pending: it is FALSE for the current table, because
+-- `wsymm[sname] = window[sname]` registers the shared rectangular strategy under its first name only;
+-- DESIGN.md section 8 does not count the two missing aliases as a violation):
+/-- every documented alias is also a name of `wsymm` -/
+def wsymm_aliases_complete : Prop :=
+  ∀ k ∈ Kind.all, ∀ name ∈ k.names, generated.wsymm.get name = some ⟨k.sname, k.distinct⟩
+
 /-- `X.periodic is window.X` and `X.symm is wsymm.X` for every strategy object of either dictionary -/
 theorem function_links : ∀ k ∈ Kind.all, ∀ b : Bool,
     generated.periodicOf ⟨k.sname, b && k.distinct⟩ = generated.window.get k.sname ∧
